@@ -346,12 +346,16 @@ func sdpCodec(tr SdpTrack) string {
 		switch {
 		case strings.EqualFold(tr.Enc, "MPEG4-GENERIC"):
 			return "aac"
-		case strings.EqualFold(tr.Enc, "PCMA"), tr.NoRtpmap && tr.PT == 8:
+		case strings.EqualFold(tr.Enc, "PCMA"):
 			return "pcma"
-		case strings.EqualFold(tr.Enc, "PCMU"), tr.NoRtpmap && tr.PT == 0:
+		case strings.EqualFold(tr.Enc, "PCMU"):
 			return "pcmu"
 		case strings.EqualFold(tr.Enc, "opus"):
 			return "opus"
+		case tr.PT == 8: // a name lal does not know (or none): it falls back on the static payload type
+			return "pcma"
+		case tr.PT == 0:
+			return "pcmu"
 		}
 	}
 	return "raw"
@@ -579,8 +583,10 @@ func genSdpTrack(t *rapid.T, i int) SdpTrack {
 	case 8:
 		// static payload types without a usable rtpmap: lal falls back on m='s payload type
 		tr.Media = "audio"
-		tr.PT = rapid.SampledFrom([]int{0, 8, 14, 3, 127}).Draw(t, "staticPt")
-		tr.Enc = rapid.SampledFrom([]string{"L16", "MPA", "", "G722"}).Draw(t, "staticEnc")
+		tr.Media = rapid.SampledFrom([]string{"audio", "audio", "video"}).Draw(t, "staticMedia")
+		tr.PT = staticPtGen.Draw(t, "staticPt")
+		tr.Enc = rapid.SampledFrom([]string{staticPtNames[tr.PT], staticPtNames[tr.PT], "L16", "MPA", "", "G722", "X-UNKNOWN"}).Draw(t, "staticEnc")
+		tr.NoRtpmap = tr.Enc == "" || rapid.Bool().Draw(t, "staticNoRtpmap")
 	default:
 		tr.Media = rapid.SampledFrom([]string{"video", "audio", "application", "text", ""}).Draw(t, "unknownMedia")
 		tr.PT = rapid.SampledFrom([]int{96, 97, 35, 127, 128, -1, 99999}).Draw(t, "unknownPt")
@@ -621,6 +627,46 @@ func genSdp(t *rapid.T) *Sdp {
 	return s
 }
 
+// staticPtNames: the encoding names of the static payload types of RFC 3551 (table 4 and 5).
+var staticPtNames = map[int]string{0: "PCMU", 3: "GSM", 4: "G723", 5: "DVI4", 6: "DVI4", 7: "LPC", 8: "PCMA", 9: "G722", 10: "L16", 11: "L16", 12: "QCELP", 13: "CN",
+	14: "MPA", 15: "G728", 16: "DVI4", 17: "DVI4", 18: "G729", 25: "CelB", 26: "JPEG", 28: "nv", 31: "H261", 32: "MPV", 33: "MP2T", 34: "H263"}
+
+// every static payload type, with more weight on the three lal has a special case for (PCMU, PCMA, MPA)
+var staticPtGen = rapid.OneOf(rapid.IntRange(0, 34), rapid.SampledFrom([]int{0, 8, 14, 14}))
+
+// genOddPayloadType fills in a media line whose payload type / encoding name lal has no unpacker for, or which
+// contradict each other: every static payload type 0..34 with and without rtpmap, names lal does not know, name /
+// payload type mismatches, payload types above 127.  lal accepts all of them (a track without unpacker).
+func genOddPayloadType(t *rapid.T, tr *SdpTrack) {
+	switch rapid.IntRange(0, 3).Draw(t, "oddPtKind") {
+	case 0: // static payload type, no rtpmap
+		tr.PT = staticPtGen.Draw(t, "oddStaticPt")
+		tr.NoRtpmap = true
+		tr.FmtpKind = "acc-static-pt-no-rtpmap"
+	case 1: // static payload type with its registered name, or a name lal does not know
+		tr.PT = staticPtGen.Draw(t, "oddStaticPt")
+		tr.Enc = staticPtNames[tr.PT]
+		if tr.Enc == "" || rapid.IntRange(0, 3).Draw(t, "oddUnknownName") == 0 {
+			tr.Enc = rapid.SampledFrom([]string{"X-UNKNOWN", "VP8", "AV1", "speex", "telephone-event", "MP4V-ES", "H264-SVC"}).Draw(t, "oddName")
+		}
+		tr.FmtpKind = "acc-static-pt-with-rtpmap"
+	case 2: // payload type and encoding name contradict each other
+		tr.PT = rapid.SampledFrom([]int{0, 8, 14, 26, 33, 96, 97}).Draw(t, "oddMismatchPt")
+		tr.Enc = rapid.SampledFrom([]string{"H264", "H265", "PCMA", "PCMU", "MPEG4-GENERIC", "opus", "MPA"}).Draw(t, "oddMismatchName")
+		if tr.Enc == "MPEG4-GENERIC" && rapid.Bool().Draw(t, "oddAacConfig") {
+			tr.Fmtp = "mode=AAC-hbr; config=1210"
+		}
+		tr.FmtpKind = "acc-pt-name-mismatch"
+	default: // payload type that does not fit the 7 bits of an rtp header
+		tr.PT = rapid.SampledFrom([]int{128, 200, 255, 256, 1000, 99999}).Draw(t, "oddBigPt")
+		tr.Enc = rapid.SampledFrom([]string{"H264", "PCMA", "MPEG4-GENERIC", "MPA", "X-UNKNOWN"}).Draw(t, "oddBigName")
+		tr.FmtpKind = "acc-pt-above-127"
+	}
+	if tr.Chan == 0 && tr.Media == "audio" {
+		tr.Chan = rapid.SampledFrom([]int{0, 1, 2}).Draw(t, "oddChan")
+	}
+}
+
 // genAcceptedSdp draws a session description that lal accepts (every line parses, every track gets its SETUP answered)
 // although its parameters are odd: clock rates 0..999 and extremes, any payload types (also the same for both tracks),
 // case variants of the encoding names, parameter sets that are short / empty / garbage / huge, AudioSpecificConfigs with
@@ -640,7 +686,9 @@ func genAcceptedSdp(t *rapid.T) *Sdp {
 		tr := SdpTrack{Clock: clock.Draw(t, "accClock")}
 		if k == 'v' {
 			tr.Media, tr.PT, tr.Control = "video", vpt, ctl[0]
-			if rapid.Bool().Draw(t, "accHevc") {
+			if rapid.IntRange(0, 3).Draw(t, "accOddVideo") == 0 {
+				genOddPayloadType(t, &tr)
+			} else if rapid.Bool().Draw(t, "accHevc") {
 				vps, sps, pps := gen.ParamSets("hevc", 0)
 				tr.Enc = "H265"
 				tr.FmtpKind = rapid.SampledFrom([]string{"acc-valid", "acc-valid", "acc-none", "acc-no-vps", "acc-short-sets", "acc-empty-sets", "acc-garbage-sets", "acc-huge-sps"}).Draw(t, "accHevcFmtp")
@@ -694,7 +742,7 @@ func genAcceptedSdp(t *rapid.T) *Sdp {
 			}
 		} else {
 			tr.Media, tr.PT, tr.Control = "audio", apt, ctl[1]
-			switch rapid.IntRange(0, 5).Draw(t, "accAudio") {
+			switch rapid.IntRange(0, 8).Draw(t, "accAudio") {
 			case 0, 1, 2:
 				tr.Enc = rapid.SampledFrom([]string{"MPEG4-GENERIC", "mpeg4-generic", "Mpeg4-Generic"}).Draw(t, "accAacName")
 				tr.Chan = rapid.SampledFrom([]int{0, 1, 2, 8, 255}).Draw(t, "accChan")
@@ -725,11 +773,13 @@ func genAcceptedSdp(t *rapid.T) *Sdp {
 			case 4:
 				tr.Enc, tr.Chan = rapid.SampledFrom([]string{"opus", "OPUS"}).Draw(t, "accOpus"), 2
 				tr.Fmtp = rapid.SampledFrom([]string{"", "sprop-stereo=1", "minptime=0;maxptime=0"}).Draw(t, "accOpusFmtp")
-			default:
+			case 5:
 				// static payload type without rtpmap
 				tr.NoRtpmap = true
 				tr.PT = rapid.SampledFrom([]int{0, 8}).Draw(t, "accStaticPt")
 				tr.Clock = 0
+			default:
+				genOddPayloadType(t, &tr)
 			}
 		}
 		sd.Tracks = append(sd.Tracks, tr)
